@@ -111,6 +111,38 @@ def post_cell(ip, ctx, out):
 
 
 # ---- C. quadrature ranges and sign
+def _free_values(f):
+    """numeric values of the free variables of the integrand handed to the quadrature (looked up in the frame it closes over):
+    these are what the kernel obligations of KernelTarget call `tau`, `T`, ... -- found by scope analysis, not by name"""
+    node, frame = getattr(f, 'node', None), getattr(f, 'frame', None)
+    if node is None or frame is None:
+        return None
+    bound = {a.arg for a in node.args.args + node.args.kwonlyargs}
+    for n in ast.walk(node):
+        if isinstance(n, ast.Name) and isinstance(n.ctx, ast.Store):
+            bound.add(n.id)
+    out = {}
+    for n in ast.walk(node):
+        if isinstance(n, ast.Name) and isinstance(n.ctx, ast.Load) and n.id not in bound and n.id not in out:
+            ok, v = frame.lookup(n.id)
+            if ok and (isinstance(v, (Cx, int, float, complex)) or z3.is_expr(v)) and not isinstance(v, bool):
+                out[n.id] = v
+    return out
+
+
+def _depends_on(e, c):
+    seen, todo = set(), [e]
+    while todo:
+        x = todo.pop()
+        if x.get_id() in seen:
+            continue
+        seen.add(x.get_id())
+        if z3.eq(x, c):
+            return True
+        todo.extend(x.children())
+    return False
+
+
 def quad_registry():
     R = Registry()
 
@@ -119,6 +151,7 @@ def quad_registry():
         f = args[0]
         a, b = kw['a'], kw['b']
         ip.log.append(('quad', a, b))
+        ip.log.append(('quad-free', _free_values(f)))
         bb = z3.Real('INFINITY') if b is INF else to_real(b)
         return Cx(uf('Q_re', to_real(a), bb, sort=RealS), uf('Q_im', to_real(a), bb, sort=RealS))
     R.models['bath_correlations._complex_integral'] = m_cint
@@ -159,6 +192,26 @@ def post_quad(ip, ctx, out):
     tot = Cx(z3.RealVal(0), z3.RealVal(0))
     for q in quads:
         tot = cadd(tot, Cx(uf('Q_re', to_real(q[1]), hi(q), sort=RealS), uf('Q_im', to_real(q[1]), hi(q), sort=RealS)))
+    # the time the integrand closes over is the caller's time difference (tau -> -i tau for imaginary time): this links the
+    # kernel obligations (KernelTarget: the integrand as an expression over ITS free variable) to the argument of the public method
+    tau = ctx['args'][1]
+    for fv in [e[1] for e in ip.log if e[0] == 'quad-free']:
+        if fv is None:
+            raise Unsupported('integrand handed to the quadrature is not a closure of the method')
+        timelike = []
+        for nm, v in sorted(fv.items()):
+            parts = [v.re, v.im] if isinstance(v, Cx) else [v]
+            if any(z3.is_expr(x) and _depends_on(x, tau) for x in parts):
+                timelike.append(v)
+        conds = [z3.BoolVal(len(timelike) >= 1)]
+        for v in timelike:
+            if ctx['mats']:
+                conds.append(ceq(to_cx(v), Cx(z3.RealVal(0), -tau)))
+            elif isinstance(v, Cx):
+                conds.append(ceq(v, Cx(tau, z3.RealVal(0))))
+            else:
+                conds.append(to_real(v) == tau)
+        ip.prove('quad/integrand-at-caller-time', z3.And(conds))
     sign = -1 if ctx['meth'] == 'eta_function' else 1
     got = out.value
     if ctx['mats']:
